@@ -27,6 +27,11 @@ fn main() {
             let ctx = Ctx { property: pid.clone(), thorough, seed, shard: i.parse().unwrap_or(0), nshards: n.parse().unwrap_or(1), out: out.clone(), cli };
             std::fs::create_dir_all(&out).ok();
             let mut rep = Report::new(&pid);
+            if let Some(secs) = std::env::var("NQV_CASE_TIMEOUT_S").ok().and_then(|s| s.parse::<u64>().ok()) {
+                if std::env::var("NQV_TRACE").is_err() {
+                    nqv::report::start_hang_watchdog(secs, format!("{}/hang-{}-{}.json", out, pid, ctx.shard));
+                }
+            }
             let t0 = Instant::now();
             let res = nqv::run_property(&ctx, &mut rep);
             let mut j = rep.to_json();
@@ -40,6 +45,12 @@ fn main() {
             if res.is_err() {
                 std::process::exit(3);
             }
+        }
+        "fuzz-corpus" => {
+            // nqv fuzz-corpus DIR N SEED
+            let n = args.get(3).and_then(|s| s.parse().ok()).unwrap_or(2000u64);
+            let seed = args.get(4).and_then(|s| s.parse().ok()).unwrap_or(1u64);
+            nqv::props::c08::write_fuzz_corpus(&args[2], n, seed);
         }
         "map-dump" => {
             let gen_path = &args[2];
